@@ -13,6 +13,7 @@ EXT_RAISES = {
     'bytearray.fromhex': {'ValueError'}, 'bytes.fromhex': {'ValueError'},
     'Cryptodome.PublicKey.ECC.import_key': {'ValueError'}, 'Cryptodome.PublicKey.RSA.import_key': {'ValueError'},
     'os.remove': {'OSError'},
+    'asyncio.wait_for': {'TimeoutError'},
     'asyncio.StreamReader.readexactly': {'asyncio.IncompleteReadError', 'ConnectionResetError'},
 }
 
